@@ -520,6 +520,12 @@ impl Timestamp {
     /// ```
     #[inline]
     pub const fn constant(mut second: i64, mut nanosecond: i32) -> Timestamp {
+        if !UnixSeconds::contains(second) {
+            panic!("invalid second");
+        }
+        if !FractionalNanosecond::contains(nanosecond) {
+            panic!("invalid nanosecond");
+        }
         if second == UnixSeconds::MIN_REPR && nanosecond < 0 {
             panic!("nanoseconds must be >=0 when seconds are minimal");
         }
